@@ -42,8 +42,10 @@ class SubtreesTrie(Generic[T]):
 
         if root_path is not None:
             self.root_path: str = path_to_trie_key(root_path)
+            self.root_path_len: int = len(root_path)
         else:
             self.root_path: str = ""
+            self.root_path_len: int = 0
 
     def __setitem__(self, key: Path, value: Tuple[Path, T]):
         assert is_path(key)
@@ -63,7 +65,7 @@ class SubtreesTrie(Generic[T]):
         return [
             (
                 value := self.trie[self.root_path + suffix],
-                (value[0][len(self.root_path) - 1 :], value[1]),
+                (value[0][self.root_path_len :], value[1]),
             )[-1]
             for suffix in self.trie.suffixes(self.root_path)
         ]
@@ -74,7 +76,7 @@ class SubtreesTrie(Generic[T]):
                 trie_key_to_path(chr(1) + suffix),
                 (
                     value := self.trie[self.root_path + suffix],
-                    (value[0][len(self.root_path) - 1 :], value[1]),
+                    (value[0][self.root_path_len :], value[1]),
                 )[-1],
             )
             for suffix in self.trie.suffixes(self.root_path)
@@ -88,10 +90,13 @@ class SubtreesTrie(Generic[T]):
 def path_to_trie_key(path: Path) -> str:
     # 0-bytes are ignored by the trie ==> +1
     # To represent the empty part, reserve chr(1) ==> +2
+    # The trie alphabet is chr(0)..chr(29): child indices 0..26 are one character
+    # (chr(2)..chr(28)); larger indices are prefixed by one chr(29) per 27 (a
+    # prefix-free code, so key prefixes still coincide with path prefixes).
     if not path:
         return chr(1)
 
-    return chr(1) + "".join([chr(i + 2) for i in path])
+    return chr(1) + "".join([chr(29) * (i // 27) + chr(i % 27 + 2) for i in path])
 
 
 def trie_key_to_path(key: str) -> Path:
@@ -103,4 +108,15 @@ def trie_key_to_path(key: str) -> Path:
     if key == chr(1):
         return ()
 
-    return tuple([ord(c) - 2 for c in key if ord(c) != 1])
+    path: List[int] = []
+    offset = 0
+    for c in key:
+        if ord(c) == 1:
+            continue
+        elif ord(c) == 29:
+            offset += 27
+        else:
+            path.append(offset + ord(c) - 2)
+            offset = 0
+
+    return tuple(path)
